@@ -30,6 +30,9 @@ pub struct CfgOpts {
     pub late_psk: u32,
     /// restrict DH (None = stratified over both)
     pub only_dh: Option<DhK>,
+    /// per mille of static keys produced by snow's own Builder::generate_keypair (through the
+    /// RNG seam) instead of the harness
+    pub snow_keygen: u32,
 }
 
 impl Default for CfgOpts {
@@ -42,6 +45,7 @@ impl Default for CfgOpts {
             parallel_same_statics: true,
             late_psk: 0,
             only_dh: None,
+            snow_keygen: 0,
         }
     }
 }
@@ -117,6 +121,15 @@ pub fn gen_static(rng: &mut Rng, dh: DhK) -> (Vec<u8>, Vec<u8>) {
     }
 }
 
+/// Static key pair from the library's own key generation, driven through the RNG seam.
+pub fn gen_static_snow(rng: &mut Rng, name: &str, backend: Backend) -> Option<(Vec<u8>, Vec<u8>)> {
+    let shared = crate::seam::RngShared::new(rng.next_u64(), RngMode::Stream);
+    let params: snow::params::NoiseParams = name.parse().ok()?;
+    let resolver = crate::seam::SimResolver::new(backend, shared, None, None);
+    let kp = snow::Builder::with_resolver(params, Box::new(resolver)).generate_keypair().ok()?;
+    Some((kp.private, kp.public))
+}
+
 pub fn gen_prologue(rng: &mut Rng) -> Vec<u8> {
     let len = match rng.below(12) {
         0..=2 => 0,
@@ -140,8 +153,17 @@ pub fn pick_backend(rng: &mut Rng, mix: BackendMix) -> Backend {
 /// Build a consistent two-party session configuration for `name`.
 pub fn gen_session(rng: &mut Rng, name: &str, opts: &CfgOpts, seed_salt: u64) -> (NodeCfg, NodeCfg) {
     let proto = Proto::parse(name).expect("generated names parse");
-    let (is, ip) = gen_static(rng, proto.dh);
-    let (rs, rp) = gen_static(rng, proto.dh);
+    let (mut is, mut ip) = gen_static(rng, proto.dh);
+    let (mut rs, mut rp) = gen_static(rng, proto.dh);
+    if opts.snow_keygen > 0 && rng.chance(opts.snow_keygen as u64, 1000) {
+        let b = pick_backend(rng, opts.backends);
+        if let (Some(a), Some(c)) = (gen_static_snow(rng, name, b), gen_static_snow(rng, name, b)) {
+            is = a.0;
+            ip = a.1;
+            rs = c.0;
+            rp = c.1;
+        }
+    }
     let prologue = gen_prologue(rng);
     let mut psks = vec![];
     for &m in &proto.psk_mods {
@@ -739,8 +761,20 @@ impl<'a> Driver<'a> {
             match self.rng.below(3) {
                 0 => step!(self, Op::Write { node: rcv as u8, plen: 3, pseed: 1, buf: Buf::Ample, nonce: NonceSel::Auto }),
                 1 => {
-                    let nw = self.w.nodes[rcv].written.len().max(1);
-                    step!(self, Op::Read { node: snd as u8, src: Src::Hist { from: rcv as u8, idx: self.rng.below(nw as u64) as u16 }, mutation: Mutation::None, out: Buf::Ample, nonce: NonceSel::Auto })
+                    // the sender reads: something the receiver wrote (if anything), its own
+                    // message (reflection) or garbage - what a one-way initiator must refuse
+                    let src = match self.rng.below(3) {
+                        0 => {
+                            let nw = self.w.nodes[rcv].written.len().max(1);
+                            Src::Hist { from: rcv as u8, idx: self.rng.below(nw as u64) as u16 }
+                        },
+                        1 => {
+                            let nw = self.w.nodes[snd].written.len().max(1);
+                            Src::Hist { from: snd as u8, idx: self.rng.below(nw as u64) as u16 }
+                        },
+                        _ => Src::Garbage { len: *self.rng.pick(&[0u32, 15, 16, 17, 48, 100]), seed: self.rng.next_u64() as u32 },
+                    };
+                    step!(self, Op::Read { node: snd as u8, src, mutation: Mutation::None, out: Buf::Ample, nonce: NonceSel::Auto })
                 },
                 _ => step!(self, Op::Query { node: snd as u8 }),
             }
